@@ -7,7 +7,7 @@ from ..prov import reads_locals, sources
 
 TUI = 'rip_tui::state::TuiState'
 FS = 'rip_tui::frame_store::FrameStore::'
-PANICS = r'^core::option::Option::<T>::(unwrap|expect)$|^core::result::Result::<T, E>::(unwrap|expect|unwrap_err|expect_err)$|^core::panicking::|^std::rt::begin_panic|^core::option::unwrap_failed|^core::result::unwrap_failed|^core::option::expect_failed|unreachable_display'
+PANICS = r'^core::option::Option::<T>::(unwrap|expect)$|^core::result::Result::<T, E>::(unwrap|expect|unwrap_err|expect_err)$|^core::panicking::|^std::rt::begin_panic|^core::option::unwrap_failed|^core::result::unwrap_failed|^core::option::expect_failed|unreachable_display|^core::cmp::Ord::clamp$|^core::cmp::PartialOrd::clamp$|::clamp$'
 GROW = r'::(insert|push|push_str|push_back|push_front|entry|extend|append)$'
 SHRINK = r'::(remove|pop|pop_front|pop_back|clear|truncate|drain|retain|split_off|take)$'
 
@@ -166,6 +166,18 @@ def run(ctx):
                 why = 'slice index without get()'
             ctx.ob('C20.2', f, 'assert:' + msg.split('(')[0] + (':' + msg.split('(')[1].split(',')[0] if '(' in msg else ''), okk, why, line=t.get('ln'))
     ctx.floor('C20.2', 'asserts / slice sites in the fold', nass, 5)
+    # actions of the terminal client on the folded state (selection, copy, key handling) are as total as the fold:
+    # every function of rip-cli that takes the TuiState is scanned for the same explicit panics
+    ui = [g for p_, g in sorted(P.fns.items()) if g.crate == 'rip' and any('TuiState' in x for x in (P.sigs.get(p_) or {}).get('inputs', []))]
+    ctx.floor('C20.2', 'functions of the terminal client that take the TuiState', len(ui), 3)
+    for g in ui:
+        ctx.touch(g)
+        bad_ui = [s_ for s_ in g.sites() if re.search(PANICS, s_.callee) and not s_.expn]
+        bad_as = [b['t'] for b in g.blocks if b['t']['k'] == 'assert' and not b['cl']]
+        ctx.ob('C20.2', g, 'ui-action-total', not bad_ui and not bad_as,
+               'no explicit panic, clamp, or arithmetic / bounds assert' if not bad_ui and not bad_as else
+               ('%s can panic on the state a frame sequence left behind (e.g. clamp(min, max) with min > max after out-of-order frames)' % bad_ui[0].callee if bad_ui else 'assert: %s' % bad_as[0].get('msg')),
+               line=bad_ui[0].line if bad_ui else (bad_as[0].get('ln') if bad_as else g.line))
     ctx.ob('C20.2', 'rip_tui', 'fold-scanned', True, '%d functions reachable from update / FrameStore / summary scanned for panics (%d reachable incl. external leaves)' % (len(local), len(par)))
     for eff in ('Clock', 'Random', 'Env', 'HashOrder'):
         hits = []
@@ -230,6 +242,35 @@ def run(ctx):
                'TuiState.%s (%s) grows in update%s' % (fld, containers[fld].split('<')[0].rsplit('::', 1)[-1], ' and is trimmed / reassigned there' if bounded else
                                                        ' and is NEVER evicted: one entry per frame-supplied id, without bound'), line=grows[fld].line)
     ctx.floor('C20.4', 'growing container fields', ngrow, 5)
+
+
+    # ---------------------------------------------------------------- C20.5
+    ctx.rule('C20.5', 'the frame window is bounded by its own length: in FrameStore::push the push into the frame deque is dominated by a comparison of that deque\'s len() with the configured cap, and the "full" edge of that comparison passes a pop before the push. A cap enforced through seq arithmetic (offset from base_seq) instead of the length stops evicting as soon as seqs repeat, go backwards or come from several streams.')
+    fp = P.fn(FS + 'push')
+    ctx.touch(fp)
+
+    def on_frames(g, op):
+        o = g.origin(op, through_calls=(r'::deref_mut$', r'::deref$', r'::as_mut$'))
+        return o[0] == 'local' and any(isinstance(pp, dict) and pp.get('o', '').endswith('FrameStore') and 'f' in pp for pp in o[2]) and [pp.get('n') for pp in o[2] if isinstance(pp, dict) and pp.get('o', '').endswith('FrameStore')]
+    pushes5 = [s_ for s_ in fp.sites() if re.search(r'(VecDeque|Vec)::<T, A>::(push_back|push_front|push)$', s_.callee) and s_.args and on_frames(fp, s_.args[0])]
+    pops5 = [s_ for s_ in fp.sites() if re.search(r'(VecDeque|Vec)::<T, A>::(pop_front|pop_back|pop|remove|truncate|drain)$', s_.callee) and s_.args and on_frames(fp, s_.args[0])]
+    lens5 = [s_ for s_ in fp.sites() if re.search(r'(VecDeque|Vec)::<T, A>::len$', s_.callee) and s_.args and on_frames(fp, s_.args[0])]
+    ctx.floor('C20.5', 'pushes into the frame deque', len(pushes5), 1)
+    for pu in pushes5:
+        ok5 = False
+        for (bi, on, ts, els) in switches(fp):
+            o = fp.origin(on)
+            if not (o[0] == 'rv' and o[1]['k'] == 'bin' and o[1]['op'] in ('Ge', 'Gt', 'Lt', 'Le', 'Eq', 'Ne')):
+                continue
+            if not any(any(l5.dest['l'] in reads_locals(fp, a) for l5 in lens5) for a in o[1]['a'] if op_place(a)):
+                continue
+            if not fp.dom(bi, pu.bb):
+                continue
+            for tgt in set(list(ts.values()) + [els]):
+                if tgt is not None and pops5 and fp.must_pass([x.bb for x in pops5], tgt, [pu.bb]):
+                    ok5 = True
+        ctx.ob('C20.5', fp, 'push-behind-len-cap', ok5, 'the push into the frame deque %s' % ('is dominated by a len()-vs-cap test whose full edge pops first' if ok5 else
+               'is NOT guarded by a test of the deque\'s own length with an eviction on its full edge: the window can grow without bound for repeated / backward / mixed-stream seqs'), line=pu.line)
 
 
 def same(f, a, b):
